@@ -29,6 +29,7 @@ CONSTANTS
     UserFiles,  \* files the user may write by hand
     RmFiles,    \* files the user may remove
     DoEdits,    \* .do files the user may edit / remove / add
+    NoDir,      \* targets whose directory does not exist (nothing creates it)
     TmpFiles,   \* targets for which a stale <t>.redo.tmp may be lying around (left by a killed earlier run)
     MaxHist,    \* bound on the number of user-level steps
     MaxCmds,    \* bound on the number of commands among them
@@ -428,8 +429,14 @@ Reap(p, j) ==
     /\ UNCHANGED <<fs, tmp, clock, w, runid, locks, cmd, hist, ran, ncmds, gh>>
 
 \* builder.rs:528-563: output written to stdout is first copied to <t>.redo.tmp
+\* record_new_state with its one realistic internal failure: output on stdout for a target whose directory does not
+\* exist cannot be copied to <t>.redo.tmp: EXIT_BUILD_JOB_ERROR (209), nothing is installed, the target is failed
+Outcome(j) ==
+    LET o == RecOutcome(j.before, CurStamp(fs, j.t), j.std, j.file, j.rv) IN
+    IF o.op = "rename" /\ j.std /\ ~j.file /\ j.t \in NoDir THEN [rv |-> 209, op |-> "none"] ELSE o
+
 NeedsCopy(j) ==
-    RecOutcome(j.before, CurStamp(fs, j.t), j.std, j.file, j.rv).op = "rename" /\ j.std /\ ~j.file
+    Outcome(j).op = "rename" /\ j.std /\ ~j.file
 
 RecCopy(p, j) ==
     LET P == procs[p] IN
@@ -441,7 +448,7 @@ RecCopy(p, j) ==
 \* builder.rs:499-584: the file operation of record_new_state
 RecFs(p, j) ==
     LET P == procs[p]
-        out == RecOutcome(j.before, CurStamp(fs, j.t), j.std, j.file, j.rv)
+        out == Outcome(j)
     IN
     /\ P.kind = "redo" /\ j \in P.jobs /\ j.k = "self"
     /\ (j.st = "exited" /\ ~NeedsCopy(j)) \/ j.st = "copied"
